@@ -29,10 +29,11 @@ FIELD = b'h2=":8443"; ma=60'
 
 class Spec(L.Spec):
     def __init__(self, key):
-        _, role, tier = key
+        role, tier = key[1], key[2]
+        self.reqform = key[3] if len(key) > 3 else "bytes"     # how the client application writes its request header list
         client = role == "client"
-        super().__init__(client, 6 if tier == "quick" else 9)
-        self.name = "c24-%s-%s" % (role, tier)
+        super().__init__(client, (6 if tier == "quick" else 9) - (1 if self.reqform != "bytes" else 0))
+        self.name = "c24-%s%s-%s" % (role, "" if self.reqform == "bytes" else "-" + self.reqform, tier)
         f, aux = self.sids
         p = self.promised
         self.alt = ["l:altsvc:origin", "l:altsvc:%d" % f, "l:altsvc:%d" % p, "l:altsvc:7", "l:altsvc:both:%d" % f, "l:altsvc:both-empty-origin:%d" % f, "l:altsvc:both-stream0:0",
@@ -55,6 +56,23 @@ class Spec(L.Spec):
 
     def execute(self, st, lab):
         parts = lab.split(":")
+        if self.client and self.reqform != "bytes" and len(parts) >= 4 and parts[:2] == ["l", "hdr"] and parts[3] == "request":
+            # the same request, written with text values (and byte or text names): the remembered :authority is reported as bytes all the same
+            o0, info = None, None
+            blk = L.BLOCKS["request"]
+            if self.reqform == "mixed":
+                hdrs = [(n, v.decode("ascii")) for n, v in blk]
+            else:
+                hdrs = [(n.decode("ascii"), v.decode("ascii")) for n, v in blk]
+            real = st.h.api
+
+            def api(method, sid, _ignored, **kw):
+                return real(method, sid, hdrs, **kw)
+            st.h.api = api
+            try:
+                return super().execute(st, lab)
+            finally:
+                del st.h.api
         if len(parts) < 2 or parts[1] != "altsvc":
             return super().execute(st, lab)
         h = st.h
@@ -171,3 +189,5 @@ def make_spec(key):
 def run(ctx):
     for role in ("server", "client"):
         ctx.explore(("c24", role, ctx.tier), time_budget=None if ctx.tier == "quick" else 420)
+    for form in ("mixed", "str"):
+        ctx.explore(("c24", "client", ctx.tier, form), time_budget=None if ctx.tier == "quick" else 200)
